@@ -50,6 +50,8 @@ type vConn struct {
 	readDL    []time.Time
 	writeDL   []time.Time
 	callsAfterClose int
+	idleAt    []int // script offsets (packet boundaries) at which one read timeout fires first
+	idleFired int
 }
 
 func vNewConn(script []byte) *vConn {
@@ -80,9 +82,23 @@ func (c *vConn) Read(p []byte) (int, error) {
 			c.callsAfterClose++
 			return 0, vConnErr{"use of closed network connection"}
 		}
+		for i, off := range c.idleAt {
+			if off == c.rpos && off >= 0 {
+				// the read deadline expires before the next packet shows up
+				c.idleAt[i] = -1
+				c.idleFired++
+				return 0, &net.OpError{Op: "read", Net: "tcp", Err: vTimeoutErr{}}
+			}
+		}
 		if n := c.readable(); n > 0 {
 			if n > len(p) {
 				n = len(p)
+			}
+			for _, off := range c.idleAt {
+				// nothing beyond a pending idle gap has arrived yet
+				if off > c.rpos && off-c.rpos < n {
+					n = off - c.rpos
+				}
 			}
 			copy(p, c.script[c.rpos:c.rpos+n])
 			c.rpos += n
@@ -96,6 +112,10 @@ func (c *vConn) Read(p []byte) (int, error) {
 			c.idles++
 			if c.idles > c.maxIdle {
 				return 0, io.EOF
+			}
+			if n := len(c.readDL); n > 0 && !c.readDL[n-1].IsZero() {
+				// the blocked read returns when its deadline is reached
+				verifClockAdvanceTo(c.readDL[n-1].UnixMilli())
 			}
 			return 0, &net.OpError{Op: "read", Net: "tcp", Err: vTimeoutErr{}}
 		}
@@ -155,6 +175,7 @@ type vCtx struct {
 	done      chan struct{}
 	deadline  time.Time
 	hasDL     bool
+	cancelledAt time.Time
 }
 
 func vNewCtx(gateAt int) *vCtx { return &vCtx{gateAt: gateAt, done: make(chan struct{})} }
@@ -165,6 +186,7 @@ func (c *vCtx) gate() {
 	}
 	if c.gates == c.gateAt {
 		c.cancelled = true
+		c.cancelledAt = time.Now()
 		close(c.done)
 		verifPollContexts()
 		return
